@@ -189,6 +189,68 @@ def replay(args):
                      pockets=any(a < b for a, b in zip(case["np"], case["np"][1:])) and any(a > b for a, b in zip(case["np"], case["np"][1:])))
 
 
+def shape_case(shape):
+    """A GCC shape (rows 100 units apart, top first) as the stream set that has exactly this grand composite curve (one stream per
+    interval, contributions 0) plus a ladder with an intermediate level on each side."""
+    n = len(shape)
+    S = []
+    for j in range(n - 1):
+        hi = (n - j) * 100
+        d = shape[j + 1] - shape[j]
+        if d:
+            S.append(dict(k="H" if d > 0 else "C", lo=hi - 100, hi=hi, cp=abs(d) / 100.0, dtc=0))
+    mid = (n // 2) * 100
+    return dict(shape=list(shape), S=S, HU=[dict(lo=n * 100 + 190, hi=n * 100 + 200, dtc=0), dict(lo=mid + 140, hi=mid + 150, dtc=0)],
+                CU=[dict(lo=-100, hi=-90, dtc=0), dict(lo=mid - 150, hi=mid - 140, dtc=0)])
+
+
+def replay_shape(args):
+    """C03 on a stream set with a prescribed GCC: duties are non-negative and sum to Qh = H(top), Qc = H(bottom)."""
+    case, ename = args
+    emb = EMBS[ename]
+    out = []
+    Qh, Qc = emb.Q(case["shape"][0]), emb.Q(case["shape"][-1])
+    scale = max(1.0, emb.Q(sum(s["cp"] * 100 for s in case["S"])))
+    try:
+        z = build_zone(case, emb)
+        _OP["di"](z)
+    except Exception as e:
+        return [("C14.di_raises", dict(exc=repr(e)[:300], emb=ename))]
+    t = z.targets["Z/Direct Integration"]
+    hq = [float(u.heat_flow) for u in t.hot_utilities]
+    cq = [float(u.heat_flow) for u in t.cold_utilities]
+    if not close(float(t.hot_utility_target), Qh, scale) or not close(float(t.cold_utility_target), Qc, scale):
+        out.append(("C01.targets", dict(got=[float(t.hot_utility_target), float(t.cold_utility_target)], expected=[Qh, Qc], emb=ename)))
+    if not close(sum(hq), Qh, scale):
+        out.append(("C03.sum_hot", dict(got=sum(hq), expected=Qh, duties=hq, emb=ename)))
+    if not close(sum(cq), Qc, scale):
+        out.append(("C03.sum_cold", dict(got=sum(cq), expected=Qc, duties=cq, emb=ename)))
+    if min(hq + cq + [0.0]) < -1e-6 * scale:
+        out.append(("C03.duty_nonnegative", dict(duties=hq + cq, emb=ename)))
+    return out
+
+
+def shape_leg(run, tier):
+    """Stream sets with MANY pockets (three on one side need seven table rows; <= 3 lattice streams give at most one or two): the
+    GCC shapes of spec/Pockets.tla, model checked there, are turned into the stream sets that have them."""
+    from . import pockets
+    res = pockets.tlc_cases("many7" if tier == "quick" else "many8")
+    run.add_tlc(res, "Pockets many-pocket shapes")
+    if res.violated:
+        run.machinery_errors.append(f"Leg M: spec/Pockets.tla violates {res.violated} (many-pocket shapes):\n{res.error_trace[:1500]}")
+        return
+    shapes = sorted(tuple(c["shape"]) for c in res.cases if min(c["shape"]) == 0 and len(set(c["shape"])) > 1)
+    jobs = [(shape_case(sh), (E0.name, E1.name, E2.name)[(i + seed()) % 3]) for i, sh in enumerate(shapes)]
+    with Pool(16, initializer=_init) as pool:
+        for (case, ename), out in zip(jobs, pool.imap(replay_shape, jobs, chunksize=32)):
+            run.cov["evaluations"] += 1
+            run.cov["traces_validated_against_impl"] += 1
+            for clause, d in out:
+                if clause.startswith("C03."):
+                    run.violation(clause, case, dict(d, level="shape"))
+    run.notes["shape_leg"] = dict(shapes=len(shapes))
+
+
 def kf_glide(v, f):
     """KF-C04-glide: some utility's glide strictly contains a stream breakpoint (TLC tags the case)."""
     return bool(v.case.get("kfGlide")) and v.clause.startswith("C04.feasible")
@@ -245,7 +307,10 @@ def check(prop, tier, run: Run, replay_case=None):
             from . import trace_pipeline
             return trace_pipeline.replay(run, replay_case)
         _init()
-        out, _ = replay((replay_case["case"], replay_case["detail"]["emb"]))
+        if replay_case["detail"].get("level") == "shape":
+            out = replay_shape((replay_case["case"], replay_case["detail"]["emb"]))
+        else:
+            out, _ = replay((replay_case["case"], replay_case["detail"]["emb"]))
         for clause, d in out:
             if clause.startswith(pre):
                 run.violation(clause, replay_case["case"], d)
@@ -293,6 +358,7 @@ def check(prop, tier, run: Run, replay_case=None):
     from . import trace_pipeline
     trace_pipeline.leg_t(run, prop, tier)
     if prop == "C03":
+        shape_leg(run, tier)
         from . import corpus
         corpus.leg_t(run, prop, tier)
         # last sentence of C03: the total-process record lists, utility by utility, the sum of its zones' duties -- judged by
